@@ -16,7 +16,7 @@ func propC06() Property {
 		ID: "C06",
 		Explanation: "R1 (must-pass-through): inside the sequence gate the call that leads to the application callbacks is reached only after checkBeginString = nil ∧ checkCompID = nil ∧ (checkSendingTime = nil ∨ the state is the recovery state, seen through the pending wrapper); OnLogon is invoked only after validation+callback and the identity/time/too-low verification both returned nil. " +
 			"R2 (reaction table, per-path effect traces of the reject processor and the too-low handler): wrong BeginString → [logout]; reject reason 9 or 10 → [reject, logout]; too-low without PossDup → [logout]; none of these advances the expected inbound number; every other reject → [reject, advance]. The constants 9 and 10 are CompID problem and SendingTime accuracy problem. " +
-			"R3: the reverse-route table is symmetric (Sender*↔Target*, OnBehalfOf*↔DeliverTo*). R4: the CompID check mirrors the identity (our SenderCompID against their TargetCompID(56), our TargetCompID against their SenderCompID(49)); BeginString compared with tag 8; SendingTime checked against ±MaxLatency unless SkipCheckLatency. R5: a Reject quotes RefSeqNum(45) ← MsgSeqNum(34) of the rejected message, is built by reverse-routing that message and is sent in reply to it.",
+			"R3: the reverse-route table is symmetric (Sender*↔Target*, OnBehalfOf*↔DeliverTo*). R4: the CompID check mirrors the identity (our SenderCompID against their TargetCompID(56), our TargetCompID against their SenderCompID(49)); BeginString compared with tag 8; SendingTime checked against ±MaxLatency unless SkipCheckLatency. R5: a Reject quotes RefSeqNum(45) ← MsgSeqNum(34) of the rejected message, is built by reverse-routing that message and is sent in reply to it. R6: the value of every reject-constructor call is used (returned, passed on or compared) — a reject assigned to a variable that is never read again is a swallowed defect report; a decision that enumerates BeginString constants and includes FIX.4.4 also includes FIXT.1.1 unless it lists every version.",
 		NotDecided: "the SendingTime window arithmetic on concrete instants; validator semantics (C15); what the peer observes on the wire.",
 		Rules: []RuleDef{
 			{ID: "C06-R1", Desc: "identity/time checks dominate callbacks and OnLogon", Min: 2, Run: c06R1},
@@ -24,6 +24,7 @@ func propC06() Property {
 			{ID: "C06-R3", Desc: "reverse-route symmetry", Min: 1, Run: c06R3},
 			{ID: "C06-R4", Desc: "identity/time check bindings", Min: 4, Run: c06R4},
 			{ID: "C06-R5", Desc: "Reject quotes and routing", Min: 3, Run: c06R5},
+			{ID: "C06-R6", Desc: "constructed rejects are used; version gates include FIXT.1.1 with FIX.4.4", Min: 10, Run: c06R6},
 		},
 	}
 }
